@@ -7,6 +7,7 @@ Binding oracle: stdout and exit class of the pipeline equal those of `run`; with
 the instruction streams loaded by E equal those loaded by R (every opcode and argument carried over).
 """
 import copy
+import os
 import re
 
 import core
@@ -30,9 +31,68 @@ def opcode_table():
         return [(name.lower(), int(num)) for name, num in re.findall(r"^\s+([A-Z][A-Z0-9_]+)\s+(\d+)\s*$", f.read(), re.M)]
 
 
+TWIN_PROGRAM = "".join("f%d = fn(a: int) -> int {\n\tprint \"in f%d \" + a\n\treturn a * %d + %d\n}\n" % (i, i, i + 2, i) for i in range(8)) + \
+    "acc = 1\n" + "".join("acc = f%d(acc) %% 1000\n" % i for i in range(8)) + "print acc\nprint \"done\"\n"
+
+
+def gen_twins(tier, seed):
+    """Two `transpile` commands work on the same file in the same directory: the first is stopped at its k-th write (or open),
+    the second runs from start to end, the first goes on.  Whatever the file holds then must execute like the source runs."""
+    ks = range(1, 25) if tier == "quick" else range(1, 80)
+    n = 0
+    for call in ("write", "open"):
+        for k in ks:
+            rng = Rng(derive(seed, PROP, "twins", call, k))
+            yield {"prop": PROP, "id": "w%d" % n, "batch": "twins", "kind": "twins", "stall": {"call": call, "nth": k},
+                   "seed_a": rng.hexbytes(16), "seed_b": rng.hexbytes(16)}
+            n += 1
+
+
+def run_twins(case):
+    world = core.fresh_world({"main.ms": TWIN_PROGRAM}, sub="tw")
+    procs = []
+
+    def cmd(args, seed, **kw):
+        p = core.run_cmd(world, args, plan={"seed": seed, "rules": kw.pop("rules", [])}, **kw)
+        procs.append(p)
+        return p
+
+    r = cmd(["run", "main.ms", "-q"], case["seed_a"])
+    c = cmd(["compile", "main.ms", "--output-format", "raw-text", "--quick"], case["seed_a"])
+    os.replace(os.path.join(world, "main.mmm"), os.path.join(world, "main.transpiled.mmm"))
+    rule = {"id": "st", "call": case["stall"]["call"], "pat": "*", "nth": str(case["stall"]["nth"]), "act": "stall"}
+    res = {}
+
+    def b_runs():
+        res["b"] = cmd(["transpile", "main.transpiled.mmm"], case["seed_b"])
+
+    a = cmd(["transpile", "main.transpiled.mmm"], case["seed_a"], rules=[rule], during=b_runs)
+    e = cmd(["execute", "main.mmm"], case["seed_a"])
+    st = core.stats_of(procs, [[rule]] * len(procs))
+    st["hash_seeds"] = [case["seed_a"], case["seed_b"]]
+    st["shape"] = core.shape_hash("twins", case["stall"])
+    st["nontrivial"] = True
+    st["sample"] = {"stall": case["stall"]}
+    st["probes"] = {"second_process_ran_while_first_was_stopped": 1} if a.get("stalled") else {"stall_point_beyond_the_end_of_the_process": 1}
+    bad = None
+    if r["rc"] != 0 or c["rc"] != 0:
+        bad = "the twin program does not run or compile on its own (rc %d / %d)" % (r["rc"], c["rc"])
+    elif a["rc"] != 0 or res.get("b") is None or res["b"]["rc"] != 0:
+        bad = "a transpile command failed although nothing but a second transpile of the same file happened (rc %s / %s): %s" % (
+            a["rc"], None if res.get("b") is None else res["b"]["rc"], core.text(a["err"])[-200:])
+    elif e["rc"] != 0 or e["out"] != r["out"]:
+        bad = "after two overlapping transpile commands `execute` ends with rc=%d and prints %r, `run` printed %r" % (
+            e["rc"], core.text(e["out"])[-200:], core.text(r["out"])[-200:])
+    if bad:
+        return {"ok": False, "class": "twin-interference", "msg": bad, "stats": st,
+                "detail": {"stall": case["stall"], "stderr": core.text(e["err"])[-1500:]}}
+    return {"ok": True, "stats": st}
+
+
 def gen_cases(tier, seed):
     quick = tier == "quick"
     n = 0
+    yield from gen_twins(tier, seed)
     # the name -> opcode table: hand-written text bytecode naming every instruction once, in a function that never runs
     for r in range(4 if quick else 16):
         rng = Rng(derive(seed, PROP, "optable", r))
@@ -152,6 +212,8 @@ def json_list(items):
 
 
 def run_case(case):
+    if case["kind"] == "twins":
+        return run_twins(case)
     if case["kind"] == "optable":
         return run_optable(case)
     files, entry = pipeline.case_files(case)
@@ -254,6 +316,8 @@ def run_case(case):
 
 
 def shrink(case):
+    if case.get("kind") == "twins":
+        return
     yield from pipeline.shrink_env(case)
     yield from pipeline.shrink_program(case)
     if case.get("shortcut"):
